@@ -37,22 +37,22 @@ theorem count_in (t0 t1 : Int) : ∀ (n : Nat) (d0 : Int),
       omega
 
 /-- a minute inside `p` is in no later period of a chained list -/
-theorem rateAt_none_of_before (rest : List Period) (b m : Int) (hb : ∀ q ∈ rest, b ≤ q.t0) (hm : m < b) :
-    rateAt rest m = none := by
+theorem valAt_none_of_before (f : Period → Option Rat) (rest : List Period) (b m : Int) (hb : ∀ q ∈ rest, b ≤ q.t0) (hm : m < b) :
+    valAt f rest m = none := by
   induction rest with
   | nil => rfl
   | cons q qs ih =>
     have hq := hb q (by simp)
     have : ¬ (q.t0 ≤ m ∧ m < q.t1) := by omega
-    simp only [rateAt, this, if_false]
+    simp only [valAt, this, if_false]
     exact ih (fun r hr => hb r (List.mem_cons_of_mem _ hr))
 
 /-- sum over the minutes of one more period in front -/
-theorem sum_cons (p : Period) (rest : List Period) (hrest : ∀ q ∈ rest, p.t1 ≤ q.t0) :
+theorem sum_cons (f : Period → Option Rat) (p : Period) (rest : List Period) (hrest : ∀ q ∈ rest, p.t1 ≤ q.t0) :
     ∀ (n : Nat) (d0 : Int),
-    ((minutesFrom d0 n).map fun m => (rateAt (p :: rest) m).getD 0).sum =
-      (((minutesFrom d0 n).filter (inP p)).length : Rat) * ((p.v.map fun v => v / ((p.t1 - p.t0 : Int) : Rat)).getD 0)
-      + ((minutesFrom d0 n).map fun m => (rateAt rest m).getD 0).sum := by
+    ((minutesFrom d0 n).map fun m => (valAt f (p :: rest) m).getD 0).sum =
+      (((minutesFrom d0 n).filter (inP p)).length : Rat) * ((f p).getD 0)
+      + ((minutesFrom d0 n).map fun m => (valAt f rest m).getD 0).sum := by
   intro n
   induction n with
   | zero => intro d0; simp [minutesFrom]
@@ -60,19 +60,19 @@ theorem sum_cons (p : Period) (rest : List Period) (hrest : ∀ q ∈ rest, p.t1
     intro d0
     simp only [minutesFrom, List.map_cons, List.sum_cons, List.filter_cons, ih (d0 + 1)]
     by_cases hc : p.t0 ≤ d0 ∧ d0 < p.t1
-    · have hnone := rateAt_none_of_before rest p.t1 d0 hrest hc.2
-      simp only [rateAt, hc, and_self, if_true, inP, decide_true, List.length_cons, hnone, Option.getD_none]
+    · have hnone := valAt_none_of_before f rest p.t1 d0 hrest hc.2
+      simp only [valAt, hc, and_self, if_true, inP, decide_true, List.length_cons, hnone, Option.getD_none]
       push_cast
       ring
-    · simp only [rateAt, hc, if_false, inP, decide_false, Bool.false_eq_true]
+    · simp only [valAt, hc, if_false, inP, decide_false, Bool.false_eq_true]
       ring
 
 /-- count over the minutes of one more period in front -/
-theorem count_cons (p : Period) (rest : List Period) (hrest : ∀ q ∈ rest, p.t1 ≤ q.t0) :
+theorem count_cons (f : Period → Option Rat) (p : Period) (rest : List Period) (hrest : ∀ q ∈ rest, p.t1 ≤ q.t0) :
     ∀ (n : Nat) (d0 : Int),
-    ((minutesFrom d0 n).filter fun m => (rateAt (p :: rest) m).isSome).length =
-      (if p.v.isSome then ((minutesFrom d0 n).filter (inP p)).length else 0)
-      + ((minutesFrom d0 n).filter fun m => (rateAt rest m).isSome).length := by
+    ((minutesFrom d0 n).filter fun m => (valAt f (p :: rest) m).isSome).length =
+      (if (f p).isSome then ((minutesFrom d0 n).filter (inP p)).length else 0)
+      + ((minutesFrom d0 n).filter fun m => (valAt f rest m).isSome).length := by
   intro n
   induction n with
   | zero => intro d0; simp [minutesFrom]
@@ -80,22 +80,21 @@ theorem count_cons (p : Period) (rest : List Period) (hrest : ∀ q ∈ rest, p.
     intro d0
     have h := ih (d0 + 1)
     by_cases hc : p.t0 ≤ d0 ∧ d0 < p.t1
-    · have hnone := rateAt_none_of_before rest p.t1 d0 hrest hc.2
+    · have hnone := valAt_none_of_before f rest p.t1 d0 hrest hc.2
       have hin : inP p d0 = true := by simp [inP, hc]
-      have hhead : (rateAt (p :: rest) d0).isSome = p.v.isSome := by
-        simp only [rateAt, hc, and_self, if_true]
-        cases p.v <;> rfl
+      have hhead : (valAt f (p :: rest) d0).isSome = (f p).isSome := by
+        simp only [valAt, hc, and_self, if_true]
       simp only [minutesFrom, List.filter_cons, hhead, hin, hnone, if_true, Option.isSome_none, Bool.false_eq_true, if_false]
-      cases hv : p.v
+      cases hv : f p
       · simp only [hv, Option.isSome_none, Bool.false_eq_true, if_false] at h ⊢
         exact h
       · simp only [hv, Option.isSome_some, if_true, List.length_cons] at h ⊢
         omega
     · have hin : inP p d0 = false := by simp [inP, hc]
-      have hhead : (rateAt (p :: rest) d0).isSome = (rateAt rest d0).isSome := by
-        simp only [rateAt, hc, if_false]
+      have hhead : (valAt f (p :: rest) d0).isSome = (valAt f rest d0).isSome := by
+        simp only [valAt, hc, if_false]
       simp only [minutesFrom, List.filter_cons, hhead, hin, Bool.false_eq_true, if_false]
-      by_cases hr : (rateAt rest d0).isSome = true
+      by_cases hr : (valAt f rest d0).isSome = true
       · simp only [hr, if_true, List.length_cons]
         omega
       · simp only [hr, Bool.false_eq_true, if_false]
@@ -105,42 +104,37 @@ theorem count_cons (p : Period) (rest : List Period) (hrest : ∀ q ∈ rest, p.
 theorem inP_filter_eq (p : Period) (l : List Int) :
     l.filter (inP p) = l.filter fun m => decide (p.t0 ≤ m ∧ m < p.t1) := rfl
 
-/-- **the minute sums are the interval-overlap shares**: for readings in time order, summing the spread minute values of
-the day `[d0, d0+n)` gives `daySum` -/
-theorem daySumMin_eq : ∀ (ps : List Period), Chained ps → ∀ (n : Nat) (d0 : Int),
-    ((minutesFrom d0 n).map fun m => (rateAt ps m).getD 0).sum = daySum ps d0 (d0 + n) := by
+/-- general form: summing what the minutes carry is `Σ f(p) · overlap(p)` -/
+theorem valSum_eq (f : Period → Option Rat) : ∀ (ps : List Period), Chained ps → ∀ (n : Nat) (d0 : Int),
+    ((minutesFrom d0 n).map fun m => (valAt f ps m).getD 0).sum =
+      (ps.map fun p => (f p).getD 0 * ((overlap d0 (d0 + n) p.t0 p.t1 : Int) : Rat)).sum := by
   intro ps
   induction ps with
-  | nil => intro _ n d0; simp [rateAt, daySum]
+  | nil => intro _ n d0; simp [valAt]
   | cons p rest ih =>
     intro hch n d0
     obtain ⟨hlt, hrest, hch'⟩ := hch
-    rw [sum_cons p rest hrest n d0, ih hch' n d0]
-    unfold daySum
+    rw [sum_cons f p rest hrest n d0, ih hch' n d0]
     simp only [List.map_cons, List.sum_cons]
     congr 1
     have hc := count_in p.t0 p.t1 n d0
     rw [← inP_filter_eq] at hc
-    unfold share
-    cases hv : p.v with
-    | none => simp
-    | some v =>
-      simp only [Option.map_some, Option.getD_some]
-      have : (((minutesFrom d0 n).filter (inP p)).length : Rat) = ((overlap d0 (d0 + n) p.t0 p.t1 : Int) : Rat) := by
-        exact_mod_cast hc
-      rw [this]
-      ring
+    have : (((minutesFrom d0 n).filter (inP p)).length : Rat) = ((overlap d0 (d0 + n) p.t0 p.t1 : Int) : Rat) := by
+      exact_mod_cast hc
+    rw [this]
+    ring
 
-/-- **the minute counts are the covered minutes** -/
-theorem dayCountMin_eq : ∀ (ps : List Period), Chained ps → ∀ (n : Nat) (d0 : Int),
-    ((((minutesFrom d0 n).filter fun m => (rateAt ps m).isSome).length : Nat) : Int) = dayCovered ps d0 (d0 + n) := by
+/-- general form: the minutes that carry a value are `Σ [f(p) present] · overlap(p)` -/
+theorem valCount_eq (f : Period → Option Rat) (hf : ∀ p, (f p).isSome = p.v.isSome) :
+    ∀ (ps : List Period), Chained ps → ∀ (n : Nat) (d0 : Int),
+    ((((minutesFrom d0 n).filter fun m => (valAt f ps m).isSome).length : Nat) : Int) = dayCovered ps d0 (d0 + n) := by
   intro ps
   induction ps with
-  | nil => intro _ n d0; simp [rateAt, dayCovered]
+  | nil => intro _ n d0; simp [valAt, dayCovered]
   | cons p rest ih =>
     intro hch n d0
     obtain ⟨hlt, hrest, hch'⟩ := hch
-    rw [count_cons p rest hrest n d0]
+    rw [count_cons f p rest hrest n d0]
     push_cast
     rw [ih hch' n d0]
     unfold dayCovered
@@ -149,10 +143,34 @@ theorem dayCountMin_eq : ∀ (ps : List Period), Chained ps → ∀ (n : Nat) (d
     have hc := count_in p.t0 p.t1 n d0
     rw [← inP_filter_eq] at hc
     unfold covered
+    rw [hf p]
     cases hv : p.v with
     | none => simp
     | some v => simpa using hc
 
+theorem spread_isSome (p : Period) : (spread p).isSome = p.v.isSome := by
+  unfold spread; cases p.v <;> rfl
+
+/-- **the minute sums are the interval-overlap shares**: for readings in time order, summing the spread minute values of
+the day `[d0, d0+n)` gives `daySum` -/
+theorem daySumMin_eq (ps : List Period) (hch : Chained ps) (n : Nat) (d0 : Int) :
+    ((minutesFrom d0 n).map fun m => (rateAt ps m).getD 0).sum = daySum ps d0 (d0 + n) := by
+  unfold rateAt
+  rw [valSum_eq spread ps hch n d0]
+  unfold daySum
+  congr 1
+  apply List.map_congr_left
+  intro p _
+  unfold share spread
+  cases hv : p.v with
+  | none => simp
+  | some v => simp only [Option.map_some, Option.getD_some]; ring
+
+/-- **the minute counts are the covered minutes** -/
+theorem dayCountMin_eq (ps : List Period) (hch : Chained ps) (n : Nat) (d0 : Int) :
+    ((((minutesFrom d0 n).filter fun m => (rateAt ps m).isSome).length : Nat) : Int) = dayCovered ps d0 (d0 + n) := by
+  unfold rateAt
+  exact valCount_eq spread spread_isSome ps hch n d0
 
 /-- every period `periods` builds starts at or after the first reading -/
 theorem periods_lb : ∀ (reads : List (Int × Option Rat)), reads.Pairwise (fun a b => a.1 < b.1) →
